@@ -112,6 +112,17 @@ def element(o, i):
     return {"obs": ob}
 
 
+def split(scn):
+    """the one-element batches of a range / list batch"""
+    k = scn["kind"]
+    base = {a: b for a, b in scn.items() if a not in ("id", "random", "from", "to", "days", "vals")}
+    if k in ("days", "secs", "num-range"):
+        return [dict(base, **{"from": v, "to": v}) for v in range(scn["from"], scn["to"] + 1)]
+    if k == "daylist":
+        return [dict(base, days=[v]) for v in scn["days"]]
+    return [dict(base, vals=[v]) for v in scn["vals"]]
+
+
 def judge_chunk(ctx, idx, scns, results, lock):
     inp = ctx.write_ndjson("scn-%03d.ndjson" % idx, scns)
     outp = ctx.path("obs-%03d.ndjson" % idx)
@@ -148,7 +159,7 @@ def run(ctx):
                                                               else "EVERY day number 0..2932896 (1970-01-01..9999-12-31)",
                                                               "10^5" if q else "10^6"))
     # non-vacuity: with the Julian leap rule TLC must find the machine / closed-form disagreement on 2100-02-29
-    nv = ctx.tlc("Fmt", "MC_Fmt_julian.cfg", workers=2, expect_violation=True, timeout=300)
+    nv = ctx.tlc("Fmt", "MC_Fmt_julian.cfg", workers=1, expect_violation=True, timeout=300)
     ctx.extra["nonvacuity"] = "LeapRule=julian yields: " + str(nv.violation)
     # scenarios
     g = ctx.tlc("FmtGen", "Gen_Fmt.cfg" if q else "Gen_Fmt_deep.cfg", workers=1, env={"VERIF_SEED": ctx.seed}, timeout=600)
@@ -212,11 +223,33 @@ def run(ctx):
             kinds_seen.add(r["scn"]["kind"] + r["scn"].get("fn", ""))
             scn = {k: (v if not isinstance(v, list) else v[:3] + ["..."]) for k, v in r["scn"].items()}
             ctx.samples.append({"batch": scn, "elements": r["n"], "one_element": r["sample"]})
+    # a crash (panic caught per element never gets here; abort / hang / panic of the worker) loses the whole batch:
+    # re-run such batches element by element so that the signature names the class of the crashing element
+    crashed = [r for r in results if not r["ok"] and r["sig"].get("elem") == "batch" and r["sig"].get("field") in ("abort", "hang", "panic")
+               and r["scn"]["kind"] in ("days", "daylist", "secs", "num-range", "num-list")]
+    located = set()
+    if crashed:
+        singles = []
+        for r in crashed[:5]:
+            for e in split(r["scn"]):
+                e["id"] = len(scns) + len(singles); e["split_of"] = r["id"]
+                singles.append(e)
+        sres = []
+        for i, part in enumerate(chunks_of(singles)):
+            judge_chunk(ctx, 900 + i, part, sres, lock)
+        for x in sorted(sres, key=lambda x: x["id"]):
+            if not x["ok"]:
+                located.add(x["scn"]["split_of"])
+                ctx.violation(x["sig"], "element %s of batch #%d (re-run alone): %s" % (
+                    json.dumps({k: v for k, v in x["scn"].items() if k not in ("id", "split_of")}), x["scn"]["split_of"], json.dumps(x.get("elem"))),
+                    {"scn": {k: v for k, v in x["scn"].items() if k != "split_of"}, "first": x["first"], "elem": x.get("elem")})
     nbad = 0
     for r in results:
         if r["ok"]:
             continue
         nbad += 1
+        if r["id"] in located:
+            continue
         what = "first element outside the property: #%d of batch %s: %s" % (
             r["first"], json.dumps({k: v for k, v in r["scn"].items() if not isinstance(v, list)}), json.dumps(r["elem"]))
         ctx.violation(r["sig"], what[:600], {"scn": r["scn"], "first": r["first"], "elem": r["elem"]})
